@@ -343,6 +343,37 @@ func genTree(r *Rng, o treeOpts) *GenTree {
 			docs[f] = append(docs[f], string(y))
 			t.Resources = append(t.Resources, &GenRes{Tracer: tracer, Obj: ob, Layer: li})
 		}
+		// RBAC family (C01): several RoleBindings of one namespace whose ServiceAccount subjects live in different
+		// other namespaces; with a rename in the tree the name-reference pass must fix every subject, whatever
+		// order the referrers are visited in
+		if li == 0 && hasDir(o, "rbac") {
+			var b strings.Builder
+			nsub := 2 + r.Intn(2)
+			for k := 0; k < nsub; k++ {
+				tSA, tRB := fmt.Sprintf("t%d", tr), fmt.Sprintf("t%d", tr+1)
+				tr += 2
+				sa := obj{"apiVersion": "v1", "kind": "ServiceAccount",
+					"metadata": obj{"name": fmt.Sprintf("op%d", k), "namespace": fmt.Sprintf("team%d", k), "annotations": obj{"tracer": tSA}}}
+				rb := obj{"apiVersion": "rbac.authorization.k8s.io/v1", "kind": "RoleBinding",
+					"metadata": obj{"name": fmt.Sprintf("bind%d", k), "namespace": "shared", "annotations": obj{"tracer": tRB}},
+					"roleRef":  obj{"apiGroup": "rbac.authorization.k8s.io", "kind": "ClusterRole", "name": "external-role"},
+					"subjects": []interface{}{obj{"kind": "ServiceAccount", "name": fmt.Sprintf("op%d", k), "namespace": fmt.Sprintf("team%d", k)}}}
+				for _, ob := range []obj{sa, rb} {
+					y, _ := syaml.Marshal(ob)
+					if b.Len() > 0 {
+						b.WriteString("---\n")
+					}
+					b.Write(y)
+				}
+				t.Resources = append(t.Resources, &GenRes{Tracer: tSA, Obj: sa, Layer: li}, &GenRes{Tracer: tRB, Obj: rb, Layer: li})
+			}
+			l.Files["rbac.yaml"] = b.String()
+			resList = append(resList, "rbac.yaml")
+			l.Kust["resources"] = resList
+			if _, ok := l.Kust["namePrefix"]; !ok {
+				l.Kust["namePrefix"] = "prod-"
+			}
+		}
 		// hand-written documents: YAML anchors / aliases / merge keys, and keep-chomped block scalars that end a
 		// non-final document of a multi-document file (their typed value is what a YAML 1.1 reader sees)
 		if nres > 0 && r.Chance(35) {
